@@ -27,10 +27,21 @@ func runC07(ctx *Ctx) {
 	for _, t := range ctx.types() {
 		t := t
 		ctx.CheckRapid(string(t.Name), n, func(rt *rapid.T) *Case {
-			b, d := ctx.genTypeStream(rt, t, rapid.IntRange(0, 1).Draw(rt, "unknown") == 0, false)
-			if d == nil {
+			cfg := ctx.streamCfg(rapid.IntRange(0, 1).Draw(rt, "unknown") == 0, false)
+			switch rapid.IntRange(0, 5).Draw(rt, "bias") {
+			case 0:
+				cfg.MapBurst = 8 // duplicate keys within one map
+			case 1:
+				cfg.ListBurst = 12
+			}
+			b := cfg.GenStream(rt, t.Desc, 0)
+			if b == nil {
+				b = []byte{}
+			}
+			if _, err := decodeD(t, b); err != nil {
 				return nil
 			}
+			ctx.MergeLabels(cfg.Labels)
 			c := &Case{Type: string(t.Name), Bytes: hexs(b), Args: map[string]string{}}
 			c.Sub = rapid.SampledFrom([]string{"unmarshal", "marshal", "readonly"}).Draw(rt, "sub")
 			c.Args["mode"] = rapid.SampledFrom([]string{"default", "deterministic"}).Draw(rt, "mode")
